@@ -297,7 +297,14 @@ def run_det(p, stats):
 
 
 def gen_prep(rng):
-    return {"basis": G.pick(rng, ["ground-rydberg", "digital"]), "omega": round(rng.uniform(2.0, 10.0), 3), "duration": rng.randint(40, 400), "eta": G.pick(rng, [0.1, 0.3, 0.6]), "epsilon": G.pick(rng, [0.0, 0.05]), "epsilon_prime": G.pick(rng, [0.0, 0.1]), "runs": 150, "np_seed": rng.getrandbits(31)}
+    p = _gen_prep(rng)
+    if p["idle"]:
+        p["runs"] = 70  # bounded runs: 2.5 us of idle time per trajectory
+    return p
+
+
+def _gen_prep(rng):
+    return {"basis": G.pick(rng, ["ground-rydberg", "digital"]), "omega": round(rng.uniform(2.0, 10.0), 3), "duration": rng.randint(40, 400), "eta": G.pick(rng, [0.1, 0.3, 0.6]), "epsilon": G.pick(rng, [0.0, 0.05]), "epsilon_prime": G.pick(rng, [0.0, 0.1]), "runs": 150, "np_seed": rng.getrandbits(31), "idle": G.pick(rng, [0, 0, 2500])}
 
 
 def run_prep(p, stats):
@@ -309,6 +316,8 @@ def run_prep(p, stats):
 
     seq, ids = _seq(p["basis"])
     seq.declare_channel("ch", BASIS_CH[p["basis"]][0])
+    if p.get("idle"):
+        seq.delay(p["idle"], "ch")  # an idle period before the drive
     seq.add(Pulse.ConstantPulse(p["duration"], p["omega"], 0.0, 0.0), "ch")
     seq.measure(p["basis"])
     np.random.seed(p["np_seed"])
